@@ -147,3 +147,27 @@ var SVGDefaultAttrValues = map[string]string{
 var SVGDefaultWhy = map[string]string{
 	"xml:space": "xml:space=\"preserve\" switches white-space handling of text content; the default is \"default\"",
 }
+
+// ECMA-262 (2023) grammar: the production an AST field of the parser's syntax tree stands for, as the lowest
+// precedence level an expression in that position may have without parentheses. Keys are "<node type>.<field>"
+// ("[]" for the elements of a list field); values name constants of the parser's OpPrec type.
+//   Expression → OpExpr (comma allowed); AssignmentExpression → OpAssign; ShortCircuitExpression → OpCoalesce;
+//   LeftHandSideExpression → OpLHS.
+// §14.7.5 for-in/of: `for (LeftHandSideExpression in Expression)`, `for (LeftHandSideExpression of AssignmentExpression)`;
+// §13.14 ConditionalExpression: ShortCircuitExpression ? AssignmentExpression : AssignmentExpression;
+// §13.2.4/5 array elements, property values and initialisers, computed names; §13.3.8 arguments; §15.4.5 YieldExpression;
+// §15.7 ClassHeritage: extends LeftHandSideExpression; §16.2.3 export default AssignmentExpression; §13.16 comma operands.
+var JSGrammarMinLevel = map[string]string{
+	"ExprStmt.Value": "OpExpr", "IfStmt.Cond": "OpExpr", "DoWhileStmt.Cond": "OpExpr", "WhileStmt.Cond": "OpExpr",
+	"ForStmt.Init": "OpExpr", "ForStmt.Cond": "OpExpr", "ForStmt.Post": "OpExpr",
+	"ForInStmt.Init": "OpLHS", "ForInStmt.Value": "OpExpr",
+	"ForOfStmt.Init": "OpLHS", "ForOfStmt.Value": "OpAssign",
+	"SwitchStmt.Init": "OpExpr", "CaseClause.Cond": "OpExpr", "WithStmt.Cond": "OpExpr",
+	"ThrowStmt.Value": "OpExpr", "ReturnStmt.Value": "OpExpr",
+	"ExportStmt.Decl": "OpAssign", "Arg.Value": "OpAssign", "Field.Init": "OpAssign",
+	"PropertyName.Computed": "OpAssign", "Property.Value": "OpAssign", "Property.Init": "OpAssign",
+	"BindingElement.Default": "OpAssign", "ClassDecl.Extends": "OpLHS",
+	"CondExpr.Cond": "OpCoalesce", "CondExpr.X": "OpAssign", "CondExpr.Y": "OpAssign",
+	"Element.Value": "OpAssign", "CommaExpr.List[]": "OpAssign", "TemplatePart.Expr": "OpExpr",
+	"GroupExpr.X": "OpExpr", "IndexExpr.Y": "OpExpr", "YieldExpr.X": "OpAssign",
+}
